@@ -24,7 +24,7 @@ type c12 struct{ base }
 
 func init() {
 	core.Register(c12{base{id: "C12", race: true, level: "exploration", quickB: 16, thoroughB: 32,
-		rule: "startup packets with 0-50 key/value pairs (duplicates, empty values, unicode, long values; malformed: key without value, last value unterminated, complete pairs without the list terminator (also an empty body), truncated packet), server configurations (global parameter maps of 0-20 entries including keys that collide with the fixed ones, with/without Version, with/without password auth); the reply must be the auth exchange, then ParameterStatus messages whose multiset equals configured + {server_encoding, client_encoding = UTF8, is_superuser, session_authorization = this user, server_version iff configured}, each key once, then exactly one ReadyForQuery(I); ClientParameters / ServerParameters / AuthenticatedUsername / RemoteAddress read inside the parser callback must equal what this connection sent / was told; the configured map is deep-compared after serving; groups of 2-64 connections connect at once (yield injection, race detector); CancelRequest as first packet, after 'N' and after a TLS upgrade must be closed without reply or callback. Non-trivial = duplicates, collisions, malformed packet, concurrency or cancel; distinct = (config shape, packet shape).",
+		rule:        "startup packets with 0-50 key/value pairs (duplicates, empty values, unicode, long values; malformed: key without value, last value unterminated, complete pairs without the list terminator (also an empty body), truncated packet), server configurations (global parameter maps of 0-20 entries including keys that collide with the fixed ones, with/without Version, with/without password auth); the reply must be the auth exchange, then ParameterStatus messages whose multiset equals configured + {server_encoding, client_encoding = UTF8, is_superuser, session_authorization = this user, server_version iff configured}, each key once, then exactly one ReadyForQuery(I); ClientParameters / ServerParameters / AuthenticatedUsername / RemoteAddress read inside the parser callback must equal what this connection sent / was told; the configured map is deep-compared after serving; groups of 2-64 connections connect at once (yield injection, race detector); CancelRequest as first packet, after 'N' and after a TLS upgrade must be closed without reply or callback. Non-trivial = duplicates, collisions, malformed packet, concurrency or cancel; distinct = (config shape, packet shape).",
 		need:        []string{"startups_checked", "parameter_status_multisets_compared", "context_reads_compared", "malformed_startups", "concurrent_groups", "cancel_requests", "configured_map_compared", "race_detector_active_batches"},
 		assumptions: append([]string{"for a duplicated startup key the handler may see any one of the sent values; is_superuser may be 'on' or 'off'"}, commonAssumptions...)}})
 }
@@ -140,7 +140,7 @@ func c12genPacket(rng *core.Rng, tag string) c12packet {
 	npairs := rng.Intn(core.Pick(rng, []int{1, 4, 10, 50, 50, 600}))
 	for n := npairs; n > 0; n-- {
 		k := core.Pick(rng, []string{"database", "application_name", "client_encoding", "options", "user", "DateStyle", rng.Ident(1 + rng.Intn(10)), "ключ" + rng.Ident(2)})
-		v := core.Pick(rng, []string{"", "v" + tag, rng.Text(1+rng.Intn(40), true), strings.Repeat("v", 2000)})
+		v := core.Pick(rng, []string{"", "v" + tag, rng.Text(1+rng.Intn(40), true), strings.Repeat("v", 2000), "-c user=postgres", "--application_name=x -c geqo=off", "-c search_path=public -e", "LATIN1"})
 		if npairs > 20 && len(v) > 60 {
 			v = v[:8] // keep the whole packet below the 64 KiB message limit of the harness servers
 		}
